@@ -251,6 +251,10 @@ def run(model: RepoModel, rep, tier: str):
     rep.rule("C18.R6", "output paths derived from an input's path are derived with os.path (splitext / join): cutting a path at its first dot or at the "
                        "first occurrence of the extension text yields a path outside the workspace when a directory name contains a dot", 3)
     check_path_string_ops(model, rep, "C18.R6", ["preparation.py", "lang/lang_analysis.py", "main.py", "util/util.py"])
+    from .. import generic6
+    rep.rule("C18.R7", "only a directory the user named becomes the workspace: the test whether -w already contains the default workspace name "
+                       "is made on the option as given, not on an absolutised path", 1)
+    generic6.check_workspace_name_test(model, rep, "C18.R7")
     key = f"{PREP}::WorkspaceBuilder.copytree_with_extension::symlinked sources skipped"
     from ..model import effective_body
     _eb = effective_body(ct.node)
